@@ -172,8 +172,10 @@ fn trigger_deserialize<'a, E>(
     message: &mut Bytes,
     deserialize: EventDeserializeFn<ServerReceiveCtx<'a>, E>,
 ) -> Result<ClientTriggerEvent<E>> {
-    let len = postcard_utils::from_buf(message)?;
-    let mut targets = Vec::with_capacity(len);
+    let len: usize = postcard_utils::from_buf(message)?;
+    // The length comes from the client: never reserve more than the message can hold
+    // (every entity takes at least one byte).
+    let mut targets = Vec::with_capacity(len.min(message.len()));
     for _ in 0..len {
         let entity = entity_serde::deserialize_entity(message)?;
         targets.push(entity);
